@@ -5,7 +5,8 @@ open Finset BigOperators
 
 set_option linter.unusedSectionVars false
 
-namespace GT
+namespace GT.Circle
+open GT.Targets
 
 section field
 variable {K : Type*} [Field K] {n : ℕ}
@@ -133,4 +134,4 @@ theorem poincareSphere_closed (hr : IsSqrt r) (m : Fin n → K) (h0 : 0 < nsq m)
     positivity
 
 end ordered
-end GT
+end GT.Circle
